@@ -47,9 +47,11 @@ ProbeAfter(j) == IF j <= Len(fs) THEN <<Text(<<"(">>), Emit(Id(xn)), Emit(IfElse
 
 RECURSIVE Body(_), Construct(_)
 Body(i) == (IF fs[i].m \in {"let", "bare"} \/ (fs[i].k = "foriter" /\ fs[i].m # "keep") THEN <<Let(xn, Str(XV(i)))>> ELSE <<>>)
-           \o <<Let(YN(i), Str(<<"y", D(i)>>))>> \o Probe
+           \* (mode keep: the level binds NOTHING before the construct inside it is entered -- its scope is still empty then)
+           \o (IF fs[i].m = "keep" THEN <<>> ELSE <<Let(YN(i), Str(<<"y", D(i)>>))>>) \o Probe
            \o (IF i < Len(fs) THEN Construct(i + 1) ELSE <<Text(<<"*">>)>>)
            \o ProbeAfter(i + 1)
+           \o (IF fs[i].m = "keep" THEN <<Let(YN(i), Str(<<"y", D(i)>>))>> ELSE <<>>)
 
 \* the name the construct itself binds: x in mode "bind", an unrelated u in mode "let"
 BN(i) == IF fs[i].m = "bind" THEN xn ELSE "u"
